@@ -79,9 +79,14 @@ def gen(rng: random.Random, k: int, tier: str) -> dict:
             scl = rng.choice([1.0, 1.0, 1.0, 2.0 ** -20, 2.0 ** 20])
             pool = [(rng.randint(0, 12) * 0.25 + off) * scl for _ in range(rng.randint(1, 8))]
             samples = [rng.choice(pool) for _ in range(n)]
-            qs = sorted(set(rng.sample(samples, min(len(samples), 4)) + [min(samples) - 0.5 * scl, max(samples) + 0.5 * scl, -1.0 * scl, 0.0,
+            if rng.random() < 0.2:
+                # -2 ln(0) = +inf is a legal value of a likelihood-ratio statistic: such toys count like any other
+                for _ in range(rng.randint(1, 3)):
+                    samples[rng.randrange(n)] = rng.choice([math.inf, math.inf, -math.inf])
+            fin = [x for x in samples if math.isfinite(x)] or [0.0]
+            qs = sorted(set(([math.inf, -math.inf] if rng.random() < 0.3 else []) + rng.sample(samples, min(len(samples), 4)) + [min(fin) - 0.5 * scl, max(fin) + 0.5 * scl, -1.0 * scl, 0.0,
                                                                           (rng.randint(0, 12) * 0.25 + 0.125 + off) * scl, (rng.randint(0, 12) * 0.25 + off) * scl,
-                                                                          (min(samples) + max(samples)) / 2]))
+                                                                          (min(fin) + max(fin)) / 2]))
             ops.append({"op": "empirical", "samples": samples, "queries": qs})
         elif kind == "sample":
             ws = specs.gen_workspace(rng, max_channels=2, max_samples=2, max_bins=3, n_meas=(1, 1))
@@ -111,7 +116,9 @@ def gen(rng: random.Random, k: int, tier: str) -> dict:
                         "s": [round(rng.uniform(3, 9), 2) for _ in range(nb)], "b": [round(rng.uniform(20, 60), 2) for _ in range(nb)],
                         "unc": [round(rng.uniform(2, 8), 2) for _ in range(nb)], "obs": [float(rng.randint(18, 70)) for _ in range(nb)],
                         "mu": round(rng.uniform(0.3, 2.0), 2), "test_stat": rng.choice(["qtilde", "qtilde", "q0"]),
-                        "ntoys": rng.randint(3, 7), "seed": rng.randrange(1 << 30)})
+                        "ntoys": rng.randint(3, 7), "seed": rng.randrange(1 << 30),
+                        # the caller's own fit configuration: 'conditional best fit' then means conditional on it as well
+                        "custom": rng.choice([None, None, "bounds", "fixed_nuisance", "init"])})
     return {"cfg": cfg, "ops": ops}
 
 
@@ -264,7 +271,7 @@ class World:
         for v in sorted(queries):
             ctx.c.oracle_evals["empirical"] += 1
             try:
-                form = (len(out) + int(abs(v) * 4) % 1000) % 3     # observed value as float, as 0-d tensor, as int when integral
+                form = (len(out) + (int(abs(v) * 4) % 1000 if math.isfinite(v) else 0)) % 3     # observed value as float, as 0-d tensor, as int when integral
                 arg = v
                 if form == 1:
                     arg = self.pyhf.tensorlib.astensor(v)
@@ -554,7 +561,26 @@ class World:
             return pdf
 
         model.make_pdf = make_pdf
-        calc = pyhf.infer.calculators.ToyCalculator(data, model, ntoys=N, test_stat=ts, track_progress=False)
+        init = list(model.config.suggested_init())
+        bounds = [list(b_) for b_ in model.config.suggested_bounds()]
+        fixed = list(model.config.suggested_fixed())
+        custom = op.get("custom")
+        nuis = [i for i in range(model.config.npars) if i != model.config.poi_index]
+        if custom == "bounds":
+            # a tight box around the nominal nuisance values: the conditional fits end on its edge
+            for i in nuis:
+                bounds[i] = [init[i] - 0.02, init[i] + 0.02] if op["mod"] in ("normsys", "histosys") else [0.98, 1.02]
+            ctx.probe("history_custom_bounds")
+        elif custom == "fixed_nuisance":
+            i = nuis[0]
+            init[i] = init[i] + 0.3 if op["mod"] in ("normsys", "histosys") else 1.07
+            fixed[i] = True
+            ctx.probe("history_custom_fixed")
+        elif custom == "init":
+            for i in nuis:
+                init[i] = init[i] + (0.4 if op["mod"] in ("normsys", "histosys") else 0.05)
+        ckw = {} if custom is None else {"init_pars": init, "par_bounds": bounds, "fixed_params": fixed}
+        calc = pyhf.infer.calculators.ToyCalculator(data, model, ntoys=N, test_stat=ts, track_progress=False, **ckw)
         self._seed(op["seed"])
         try:
             sb, bo = calc.distributions(mu)
@@ -570,8 +596,8 @@ class World:
         if len(sampled) != 2:
             return "calls"
         mu_alt = 1.0 if ts == "q0" else 0.0
-        ref_sig = self._np(pyhf.infer.mle.fixed_poi_fit(mu, data, model))
-        ref_bkg = self._np(pyhf.infer.mle.fixed_poi_fit(mu_alt, data, model))
+        ref_sig = self._np(pyhf.infer.mle.fixed_poi_fit(mu, data, model, init_pars=init, par_bounds=bounds, fixed_params=fixed))
+        ref_bkg = self._np(pyhf.infer.mle.fixed_poi_fit(mu_alt, data, model, init_pars=init, par_bounds=bounds, fixed_params=fixed))
         rel = 1e-3 if self.reg[1] == "32b" else 1e-6
         poi = model.config.poi_index
 
@@ -590,7 +616,6 @@ class World:
                      f"mu={mu}: {ref_sig.tolist()} and mu={mu_alt}: {ref_bkg.tolist()} (poi index {poi}); backend={self.reg}")
             return "point"
         tfun = pyhf.infer.utils.get_test_stat(ts)
-        init, bounds, fixed = model.config.suggested_init(), model.config.suggested_bounds(), model.config.suggested_fixed()
         for rows, dist, nm in ((rows_sig, sb, "s+b"), (rows_bkg, bo, "b-only")):
             mine = sorted(float(self._np(tfun(mu, tl.astensor(r), model, init, bounds, fixed))) for r in rows)
             theirs = sorted(float(v) for v in self._np(dist.samples))
